@@ -171,6 +171,39 @@ def o3(W, ob):
                  'to_player_inputs slices under ' + dnf_str(g)[:200], where(tp, t.line))
 
 
+def o5(W, ob):
+    """a frame that was recorded as received is also handed to the session, on every path: the two pieces of state move together"""
+    from .world import GROW_FNS
+    f = W.fn(UDP + '::on_input')
+    cx = W.ctx(f)
+    cfg = cfg_of(f)
+    G = W.guards(f)
+    ins = [t for t in f.calls() if last_seg(t.callee.best) == 'insert' and t.args and t.args[0].is_place() and 'recv_inputs' in cx.ap_carry(t.args[0].place).s(f)]
+    ob.require_count(len(ins), 1, 'recv_inputs.insert in on_input')
+    deliver = [t for t in f.calls() if t.callee.indirect is None and last_seg(t.callee.best) in GROW_FNS and t.args and t.args[0].is_place() and
+               cx.ap_carry(t.args[0].place).s(f).startswith('self.event_queue')]
+    ob.require_count(len(deliver), 1, 'sites that hand events to the endpoint\'s event queue in on_input')
+    loops = G.loop_by_header()
+    for t in ins:
+        through = set(d.bb for d in deliver)
+        for d in deliver:
+            # the per-player loop that follows the store: passing its header counts (it runs once per decoded player input)
+            inner = [(h, body) for h, body in loops.items() if d.bb in body and t.bb not in body]
+            if inner:
+                h, body = min(inner, key=lambda x: len(x[1]))
+                through.add(h)
+        pth = cfg.path_from_avoiding(t.bb, sorted(through))
+        ob.check(pth is None, 'on_input|stored-then-delivered', 'every frame stored in recv_inputs is handed to the session before on_input returns',
+                 'a frame can be stored in recv_inputs (so it is acknowledged and skipped as a duplicate from then on) while on_input returns without queueing its Event::Input: '
+                 'the session never receives that frame', where(f, t.line), witness=path_str(f, pth) if pth else None)
+    # and the stored entry is what was delivered: both come from the same decoded frame
+    for fn2, st in W.constructions('Event', 'Input'):
+        if fn2 is not f:
+            continue
+        in_same_iteration = any(cfg.path_avoiding([st.bb], [t.bb]) is None for t in ins)
+        ob.check(in_same_iteration, 'on_input|delivered-after-stored', 'events are built only after the frame was stored', 'Event::Input is built on a path that did not store the frame', where(f, st.line))
+
+
 def o4(W, ob):
     entries = [W.fn(UDP + '::handle_message')]
     st = panics.check_closure(W, ob, entries, 'untrusted-packet path (closure of UdpProtocol::handle_message)', 'O4')
@@ -227,6 +260,7 @@ OBLIGATIONS = [
      'checks; peer statuses are read only under len == num_players.', o2),
     ('C08.O3', 'rejections emit nothing', 'after a decode / to_player_inputs error no frame is stored or announced; to_player_inputs checks '
      'player count and divisibility before slicing.', o3),
+    ('C08.O5', 'stored <=> delivered', 'in on_input a frame recorded in recv_inputs (hence acknowledged and skipped as a duplicate from then on) is handed to the session on every path to return: no rejection of a LATER frame of the same packet may come between storing a frame and queueing its events.', o5),
     ('C08.O4', 'no open panic site on the untrusted path', 'inventory of panic-capable sites over the closure of handle_message: each is '
      'discharged by analysis or listed with a reason; external callees are in the reviewed totality table; unsafe code is forbidden; the '
      'length invariants used are protected by writer checks.', o4),
